@@ -133,6 +133,7 @@ type dwCfg struct {
 	Pre        [][2]int // attached secondary interfaces: {v4 count incl. primary, v6 count}
 	MinIdle    int
 	MaxIdle    int
+	Least      bool // eni_selection_policy least_ips (default most_ips)
 	LoMAC      bool // first interface carries lo's MAC (the only netlink.Device in a fresh netns): "attached" for gcPolicyRoutes
 }
 
@@ -189,7 +190,11 @@ func newDW(x *vrt.Exec, cfg dwCfg, db storage.Storage, cloud *simcloud.Node, k *
 	for i := len(attached); i < cfg.Slots; i++ {
 		nis = append(nis, eni.NewLocal(nil, "secondary", cloud, pc))
 	}
-	w.mgr = eni.NewManager(pc.MinPoolSize, pc.MaxPoolSize, pc.Capacity, 0, nis, daemon.EniSelectionPolicyMostIPs, nil)
+	pol := daemon.EniSelectionPolicyMostIPs
+	if cfg.Least {
+		pol = daemon.EniSelectionPolicyLeastIPs
+	}
+	w.mgr = eni.NewManager(pc.MinPoolSize, pc.MaxPoolSize, pc.Capacity, 0, nis, pol, nil)
 	w.svc = &networkService{daemonMode: daemon.ModeENIMultiIP, k8s: k, resourceDB: db, eniMgr: w.mgr, enableIPv4: cfg.V4, enableIPv6: cfg.V6, ipamType: types.IPAMTypeDefault}
 	w.ctx = context.Background()
 	vrt.Freeze(true)
